@@ -211,6 +211,15 @@ def barycentric(P, rep, rule="EXPR.barycentric"):
                     co = sp.Poly(sl, EPS).coeff_monomial(EPS)
                     num = [abs(float(c_)) for c_ in sp.Poly(sp.expand(co), *sorted(co.free_symbols, key=str)).coeffs()] if co.free_symbols else [abs(float(co))]
                 except Exception:
+                    # proportional to eps but with a factor that is not a polynomial in the triangle's coordinates (a division by the
+                    # area, say): the slack is not bounded by a constant multiple of eps - it grows without bound for small triangles
+                    try:
+                        lin = sp.simplify(sl / EPS)
+                        if not lin.has(EPS):
+                            big.append(lin)
+                            continue
+                    except Exception:
+                        pass
                     rep.unknown(rule, "in_triangle: tolerance `%s` is not a polynomial in machine epsilon" % str(sl)[:60])
                     continue
                 if sp.Poly(sl, EPS).degree() != 1 or max(num) > 1e6:
